@@ -77,8 +77,21 @@ def convert(ns, name, start_local, vals, via_pattern, live_cache):
     if via_pattern:
         up = live_cache["up"]
         country = live_cache["country"]
-        country.timezone = ns.SourceObject(ns.pytz.timezone(name))
-        up.hourly_usage_journey_starts = src
+        live_cache["n"] = live_cache.get("n", 0) + 1
+        if live_cache["n"] % 2 and "other" in live_cache:
+            # the local series first; then the usage pattern is moved to ANOTHER country that is in the same zone as its present one
+            # (nothing to convert again), and only then that country's zone is corrected
+            up.hourly_usage_journey_starts = src
+            present = up.country.timezone.value
+            other = live_cache["other"] if up.country.id == country.id else country
+            if str(other.timezone.value) != str(present):
+                other.timezone = ns.SourceObject(ns.pytz.timezone(str(present)))
+            up.country = other
+            other.timezone = ns.SourceObject(ns.pytz.timezone(name))
+        else:
+            cur = live_cache["other"] if "other" in live_cache and up.country.id == live_cache["other"].id else country
+            cur.timezone = ns.SourceObject(ns.pytz.timezone(name))
+            up.hourly_usage_journey_starts = src
         res = up.utc_hourly_usage_journey_starts
     else:
         res = src.convert_to_utc(local_timezone=ns.SourceObject(ns.pytz.timezone(name), label="tz"))
@@ -98,11 +111,12 @@ def record(ns, rng, cases):
     m["d1"] = efx.new_obj("Device")
     m["n1"] = efx.new_obj("Network")
     m["c1"] = efx.new_obj("Country")
+    m["c2"] = efx.new_obj("Country")
     m["up1"] = efx.new_obj("UsagePattern", usage_journey="uj1", network="n1", country="c1", devices=["d1"],
                            starts=[1] * 8)
     m["sys"] = efx.new_obj("System", usage_patterns=["up1"])
     live = efx.build(ns, m)
-    cache = {"up": live["up1"], "country": live["c1"]}
+    cache = {"up": live["up1"], "country": live["c1"], "other": live["c2"]}
     events = []
     for tid, (name, table, at_min) in enumerate(cases, start=1):
         n = 8 if rng.random() < 0.8 else rng.choice([3, 30])
